@@ -27,3 +27,38 @@ for name in sorted(os.listdir(root)):
         key = re.sub(r'^key=', '', key).split(' detail=')[0]
         det.append('%s: `%s`' % (chk.split(':')[0], key) if r.get('violations') else '%s: NOT reported' % chk.split(':')[0])
     print('| %s %s | %s | %s |' % (name, title.replace('|', '/'), needs.replace('|', '/')[:90], '; '.join(det)))
+
+
+def benign_table():
+    """markdown table of the property-preserving changes (DESIGN.md section 14)"""
+    broot = os.path.join(os.path.dirname(root), 'benign')
+    print('| property-preserving change | own check | other checks run (anchor files touched) |')
+    print('|---|---|---|')
+    for name in sorted(os.listdir(broot)):
+        mp = os.path.join(broot, name, 'meta.json')
+        if not os.path.exists(mp):
+            continue
+        m = json.load(open(mp))
+        title = ''
+        np_ = os.path.join(broot, name, 'notes.md')
+        if os.path.exists(np_):
+            for line in open(np_).read().splitlines():
+                line = line.strip('# *-').strip()
+                if len(line) > 15:
+                    title = line
+                    break
+        title = re.sub(r'\s+', ' ', title)[:150].replace('|', '/')
+        own, other = [], []
+        for chk, r in sorted(m.get('checks', {}).items()):
+            p = chk.split(':')[0]
+            verdict = 'silent' if r['exit'] == 0 and not r['violations'] else ('inconclusive' if r['exit'] == 2 else 'ALARM')
+            (own if p == m['property'] else other).append('%s %s' % (p, verdict))
+        print('| %s %s | %s | %s |' % (name, title, '; '.join(own), ', '.join(other) or '-'))
+
+
+if __name__ == '__main__':
+    import sys
+    if '--benign' in sys.argv:
+        # the seeded table above was already printed at import time; keep the two outputs separable
+        print('\n<!-- benign -->')
+        benign_table()
